@@ -1,0 +1,12 @@
+//go:build verif
+
+package config
+
+import "sync"
+
+// VerifReload runs InitConfig again (simulation builds only), so that a
+// harness can pass settings the way the command line does: through viper.
+func VerifReload() error {
+	once = sync.Once{}
+	return InitConfig()
+}
